@@ -49,18 +49,22 @@ def c08(tier):
 W = "MC_W.tla"
 
 
+def wcfg(fam, q):
+    return "MC_W_%s%s.cfg" % (fam, "_quick" if q else "")
+
+
 def c02(tier):
     q = tier == "quick"
     return writer.run_writer_check("C02", tier, [
-        dict(mc=(W, "MC_W_conform.cfg"), max_progs=3000 if q else 60000, mult=1 if q else 2),
-        dict(mc=(W, "MC_W_prepared.cfg"), max_progs=500 if q else 10000),
+        dict(mc=(W, wcfg("conform", q)), max_progs=3000 if q else 60000, mult=1 if q else 2),
+        dict(mc=(W, wcfg("prepared", q)), max_progs=500 if q else 10000),
     ], assumptions=BASE_ASSUME)
 
 
 def c09(tier):
     q = tier == "quick"
     return writer.run_writer_check("C09", tier, [
-        dict(mc=(W, "MC_W_close.cfg"), max_progs=3000 if q else 124800, mult=1),
+        dict(mc=(W, wcfg("close", q)), max_progs=3000 if q else 124800, mult=1),
     ], assumptions=BASE_ASSUME)
 
 
@@ -68,10 +72,10 @@ def c10(tier):
     q = tier == "quick"
     small = [1, 2, 7, 16, 125, 126, 1024, 4096]
     return writer.run_writer_check("C10", tier, [
-        dict(mc=(W, "MC_W_invalid.cfg"), max_progs=2000 if q else 50000),
-        dict(mc=(W, "MC_W_fault.cfg"), max_progs=150 if q else 4000, allk=True, bset=[7, 16, 126, 1024, 4096],
+        dict(mc=(W, wcfg("invalid", q)), max_progs=2000 if q else 50000),
+        dict(mc=(W, wcfg("fault", q)), max_progs=150 if q else 4000, allk=True, bset=[7, 16, 126, 1024, 4096],
              filt=lambda p: p["mfault"]["at"] == 0),
-        dict(mc=(W, "MC_W_conform.cfg"), max_progs=500 if q else 10000,
+        dict(mc=(W, wcfg("conform", q)), max_progs=500 if q else 10000,
              filt=lambda p: any(o["op"] in ("SD", "WC") for o in p["ops"])),
     ], assumptions=BASE_ASSUME, level="model_checking")
 
@@ -79,8 +83,8 @@ def c10(tier):
 def c19(tier):
     q = tier == "quick"
     return writer.run_writer_check("C19", tier, [
-        dict(mc=(W, "MC_W_prepared.cfg"), max_progs=2500 if q else 40000),
-        dict(mc=(W, "MC_W_prepared.cfg"), inter=(500 if q else 10000, 3)),
+        dict(mc=(W, wcfg("prepared", q)), max_progs=2500 if q else 40000),
+        dict(mc=(W, wcfg("prepared", q)), inter=(500 if q else 10000, 3)),
     ], assumptions=BASE_ASSUME)
 
 
@@ -89,12 +93,12 @@ def c20(tier):
     pool = lambda p: p["conns"][0]["pool"]
     nf = lambda p: p["conns"][0]["pool"] and p["mfault"]["at"] == 0
     return writer.run_writer_check("C20", tier, [
-        dict(mc=(W, "MC_W_conform.cfg"), max_progs=1200 if q else 30000, filt=pool),
-        dict(mc=(W, "MC_W_invalid.cfg"), max_progs=600 if q else 20000, filt=pool),
-        dict(mc=(W, "MC_W_close.cfg"), max_progs=600 if q else 20000, filt=pool),
-        dict(mc=(W, "MC_W_fault.cfg"), max_progs=60 if q else 2000, allk=True, bset=[7, 16, 126, 1024], filt=nf),
-        dict(mc=(W, "MC_W_conform.cfg"), inter=(500 if q else 10000, 2), filt=pool),
-        dict(mc=(W, "MC_W_invalid.cfg"), inter=(300 if q else 5000, 3), filt=pool),
+        dict(mc=(W, wcfg("conform", q)), max_progs=1200 if q else 30000, filt=pool),
+        dict(mc=(W, wcfg("invalid", q)), max_progs=600 if q else 20000, filt=pool),
+        dict(mc=(W, wcfg("close", q)), max_progs=600 if q else 20000, filt=pool),
+        dict(mc=(W, wcfg("fault", q)), max_progs=60 if q else 2000, allk=True, bset=[7, 16, 126, 1024], filt=nf),
+        dict(mc=(W, wcfg("conform", q)), inter=(500 if q else 10000, 2), filt=pool),
+        dict(mc=(W, wcfg("invalid", q)), inter=(300 if q else 5000, 3), filt=pool),
     ], assumptions=BASE_ASSUME)
 
 
